@@ -262,3 +262,27 @@ def _rng(state):
 
 contract('C11.runtime', [PS + ':FFTPSF.__init__', MTF + ':FFTMTF.__init__', MTF + ':FFTMTF._generate_mtf_data',
                          MTF + ':GeometricMTF._compute_field_data'], ['C11'], custom=_bounded)(lambda c: None)
+
+
+def _measure_c11(L):
+    from optiland import psf, mtf
+    pw = L.primary_wavelength
+    f0 = (0.0, 0.4)
+    out = {}
+
+    def q(name, fn):
+        try:
+            out[name] = np.array(fn(), dtype=float)
+        except Exception as ex:                      # the same failure must then occur on the twin lens
+            out[name] = np.array([float('nan')])
+            out[name + '.raised_' + type(ex).__name__] = np.array([1.0])
+    p = psf.FFTPSF(L, f0, pw, num_rays=32, grid_size=64)
+    out['psf'] = np.array(p.psf, dtype=float)
+    q('strehl', lambda: [p.strehl_ratio()])
+    q('fft_mtf_tangential', lambda: mtf.FFTMTF(L, fields=[f0], wavelength=pw, num_rays=32, grid_size=64).mtf[0][0])
+    q('geometric_mtf', lambda: mtf.GeometricMTF(L, fields=[f0], wavelength=pw, num_rays=20, num_points=16).mtf[0])
+    return out
+
+
+contract('C11.runtime.requery', [PS + ':FFTPSF.__init__', MTF + ':FFTMTF.__init__', MTF + ':GeometricMTF.__init__'], ['C11', 'C13'],
+         custom=rt.requery_custom(_measure_c11, 'C11.runtime.psf_and_mtf_of_an_edited_lens_equal_those_of_a_lens_built_with_the_edits'))(lambda c: None)
